@@ -594,10 +594,18 @@ func main() {
 	r.Assume("SetIfAbsent on a present key may or may not refresh recency (statement silent)", "an item larger than the capacity is evicted together with everything older (strict LRU order)")
 	var jobs []func()
 	sizes, caps := []int{0, 1, 2, 5}, []int64{0, 1, 3, 4}
+	// four keys with few sizes: one call may have to evict three resident entries and the new one
+	fullKeys = []string{"a", "b", "c", "d"}
+	ops4 := fullOps([]int{1, 5}, []int64{3, 5})
+	fullKeys = []string{"a", "b", "c"}
 	if !r.Quick() {
 		fullKeys = []string{"a", "b", "c", "d"}
 		sizes, caps = []int{0, 1, 2, 3, 5}, []int64{0, 1, 3, 4, 6}
 	}
+	jobs = append(jobs, func() {
+		seq.Explore(r, &seq.Spec[*st]{Name: "cache.LRUCache/four-keys", Ops: ops4, Key: key, After: after, Depth: r.Pick(9, 14),
+			New: func() *st { return &st{c: fromCache(cache.NewLRUCache(3)), m: &mlru{capacity: 3}} }})
+	})
 	jobs = append(jobs, func() {
 		seq.Explore(r, &seq.Spec[*st]{Name: "cache.LRUCache", Ops: fullOps(sizes, caps), Key: key, After: after, Depth: r.Pick(12, 40),
 			New: func() *st { return &st{c: fromCache(cache.NewLRUCache(3)), m: &mlru{capacity: 3}} }})
